@@ -1101,10 +1101,10 @@ def run(chk, ctx):
         'the statistics theorems (C13_S, C13_pi, C13_watterson, C13_tajima, C13_fst) are stated for completely called, unprojected data; for projected / folded spectra the statistics are compared with the model numerically (K) only',
         'random choices (bootstrap chunks, sub-sampled individuals) are parameters: recorded from the real run and replayed by the model; that numpy draws without replacement is checked on the recorded draws only',
         'the chunk loop is modelled position by position (restart from chunk 0) and tied to the carried-along loop of the code by K; gz/zip inputs are not exercised']
-    nv = 60 if tier == 'quick' else 500
-    ns = 20 if tier == 'quick' else 150
-    nd = 20 if tier == 'quick' else 120
-    nf = 24 if tier == 'quick' else 200
+    nv = 50 if tier == 'quick' else 500
+    ns = 16 if tier == 'quick' else 150
+    nd = 16 if tier == 'quick' else 120
+    nf = 20 if tier == 'quick' else 200
     ndp = 8 if tier == 'quick' else 40
     nai = 4 if tier == 'quick' else 16
     check_weights(chk, ctx, rng, 60 if tier == 'quick' else 600)
